@@ -7,6 +7,7 @@ rejection, the indentation iterator's decision table, error propagation, and ver
 every cell between the text and the model (R03.9).
 """
 import json
+import re
 import os
 
 from lib import hir as H
@@ -33,7 +34,7 @@ CLAIM = {
             "TinyLine::new (indentation strip, split at the separator), next/end/into_names/into_namespaces and the struct literals of "
             "read into every model field, and from every model field into its hole of the writer template, a cell passes only through "
             "selections, ownership/From/TryFrom/parse conversions (comments: escape/unescape) - any other call (trim, case change, "
-            "slicing, a helper that does not return its argument unchanged, `.map(path_fn)`) is reported with the call named. (R03.10) every writer loop over a map of the model emits a row for every entry (no dropping adaptor or mutation, no continue/break) and no row of the writer stands behind a successful early exit (`if <test> { return Ok(()) }`); (R03.2) the sort key is an injective view of the key fields (no case folding or other lossy function). (R03.1) the sort is executed whenever the loop is: no `if`/`match`/loop around the sort that is not around the loop as well (`if v.len() > 1` apart). (R03.6) comment-stored: in the comment helper only the test of the javadoc slot and error exits stand before `*javadoc = Some(text)` - every `c` row that is accepted is stored, whatever its text. (R03.4) the header test is compared as a boolean formula over `column == literal` atoms (truth table).",
+            "slicing, a helper that does not return its argument unchanged, `.map(path_fn)`) is reported with the call named. (R03.10) every writer loop over a map of the model emits a row for every entry (no dropping adaptor or mutation, no continue/break) and no row of the writer stands behind a successful early exit (`if <test> { return Ok(()) }`); (R03.2) the sort key is an injective view of the key fields (no case folding or other lossy function). (R03.1) the sort is executed whenever the loop is: no `if`/`match`/loop around the sort that is not around the loop as well (`if v.len() > 1` apart). (R03.6) comment-stored: in the comment helper only the test of the javadoc slot and error exits stand before `*javadoc = Some(text)` - every `c` row that is accepted is stored, whatever its text. (R03.4) the header test is compared as a boolean formula over `column == literal` atoms (truth table). (R03.11) every `parse()` of tiny_v2::read yields the integer type of the tree field it fills (ParameterMapping.index: usize), and Names::try_from refuses a name only under an `is_empty()` test applied to the name itself (conversions only).",
     "note": "Not decided: the inverse law and the byte-identical fix-point for all contents (values of names/descriptors containing "
             "the separator, validity conversions, unicode), termination; the Display/FromStr/TryFrom impls a cell is converted by are "
             "taken to be mutually inverse; format options of a hole (width/fill) are not in the facts. Known findings: Mappings.javadoc is written but cannot be "
@@ -63,12 +64,73 @@ def run(F, R, tier):
     r03_7(q, R)
     r03_8(q, R, ctx)
     r03_9(q, R, ctx, spec)
+    r03_11(q, R)
     return ("text-layout extraction: the emission term of tiny_v2::write (write!/writeln! templates, helpers inlined) is cut into rows "
             "and columns, each hole traced to the (ADT, field) it prints; tiny_v2::read is abstracted to indentation levels, tag "
             "dispatch and the per-row column consumption (next/into_names/end) with the struct field each column is stored in; "
             "both are compared with each other and with spec/tiny_v2.json. Plus order taint with sort-key totality (derived Ord + "
             "ToKey components), escape tables, add_child entry table, WithMoreIdentIter decision table, discarded-Result scan, "
             "verbatim transport of every cell (strict value provenance line -> tokeniser -> accessor -> model field -> template hole).")
+
+
+# ------------------------------------------------------------------------------------ R03.11
+NAME_CONVERSIONS = ("as_ref", "as_str", "borrow", "as_java_str", "as_inner", "deref", "as_slice", "as_bytes", "iter", "as_deref", "clone")
+
+
+def r03_11(q, R):
+    """What the writer can write the reader can read: a numeric cell is parsed at the width of the tree field it fills, and the only
+    name the Names constructor refuses is the empty one."""
+    rid = "R03.11"
+    R.rule(rid, "reader accepts every value the tree can hold: each `parse()` of tiny_v2::read produces the integer type of the tree field "
+                "(ParameterMapping.index), not a narrower one; Names::try_from refuses a name only if it is empty - the emptiness test is "
+                "applied to the name itself (conversions only, no trim / case folding / character class)")
+    idx = None
+    for a in q.raw["adts"]:
+        if a.get("path", "").endswith("tree::mappings::ParameterMapping"):
+            idx = next((f["ty"] for f in a["variants"][0]["fields"] if f["name"] == "index"), None)
+    rd = [b for b in q.bodies if b.get("path", "").endswith("tiny_v2::read")]
+    if R.anchor(rid, "fn tiny_v2::read and ParameterMapping.index", len(rd) == 1 and idx is not None):
+        parses = [n for n in H.walk(rd[0]["body"]) if n.get("k") == "mcall" and n["name"] == "parse"]
+        froms = [n for n in H.walk(rd[0]["body"]) if n.get("k") in ("call", "mcall") and (H.callee_name(n) or "") in ("from_str", "from_str_radix")]
+        R.anchor(rid, "the index cell of a `p` row is parsed in tiny_v2::read", len(parses) + len(froms) >= 1, sp=rd[0]["sp"])
+        for n in parses + froms:
+            ty = n.get("ty") or ""
+            m = re.match(r"^core::result::Result<([^,>]+),", ty)
+            got = m.group(1) if m else ty
+            R.inst(rid, "read:parse-width:%s" % (got or "?"), got == idx, sp=n.get("sp"), expect=idx, got=got,
+                   detail="ParameterMapping.index is %s in the tree and is written in full by tiny_v2::write; an index that does not fit a "
+                          "narrower type is written but cannot be read back (seed C03-12)" % idx)
+    tf = [b for b in q.bodies if b.get("name") == "try_from" and (b.get("impl_ty") or "").startswith("quill::tree::names::Names<")]
+    if R.anchor(rid, "impl TryFrom<[Option<T>; N]> for Names", len(tf) == 1):
+        b = tf[0]
+        tests = [n for n in H.walk(b["body"]) if n.get("k") == "mcall" and n["name"] == "is_empty"]
+        R.anchor(rid, "Names::try_from tests a name with is_empty()", len(tests) >= 1, sp=b["sp"])
+        for n in tests:
+            chain, cur = [], n["recv"]
+            while True:
+                cur = H.peel(cur)
+                if cur.get("k") == "mcall":
+                    chain.append(cur["name"])
+                    cur = cur["recv"]
+                elif cur.get("k") == "call" and len(cur.get("args") or []) == 1:
+                    chain.append(H.callee_name(cur) or "?")
+                    cur = cur["args"][0]
+                else:
+                    break
+            foreign = [c for c in chain if c not in NAME_CONVERSIONS]
+            R.inst(rid, "Names::try_from:emptiness-of-the-name-itself", not foreign and cur.get("k") == "path", sp=n.get("sp"),
+                   expect="<name>.as_ref().is_empty()", got=H.render(n)[:100],
+                   detail="a name made of white space is a legal name (duke accepts it) and is written as it is; refusing it on reading "
+                          "makes a written file unreadable (seed C03-13)")
+        # nothing else refuses: every error exit of try_from stands under an is_empty test
+        errs = [n for n in H.walk(b["body"]) if n.get("k") == "ret" and H.is_err_exit(n)]
+        other = []
+        for e in errs:
+            conds = H.path_conditions(b["body"], e)
+            if not any(any(x is t for x in H.walk(cn)) for _k, cn, _p in conds if isinstance(cn, dict) for t in tests):
+                other.append(H.render(e)[:80])
+        R.inst(rid, "Names::try_from:refuses-only-empty-names", not other, sp=b["sp"], got=other or "every Err is under the emptiness test")
+    R.floor(rid, 3)
 
 
 # ------------------------------------------------------------------------------------------------
